@@ -1101,6 +1101,9 @@ def add_storm(rounds=40, nscripts=4):
             subs = [step("addPeer", peer="pa") for _ in range(k)]
             if r % 3 == 0:
                 subs += [step("addPeer", peer="pb"), step("addPeer", peer="pb")]
+            if r % 4 == 1:
+                # a snapshot taken in the middle of the storm lists the key at most once
+                subs.insert(1, step("listPeers"))
             b.steps.append(multi(*subs))
             if r % 2:
                 b.steps.append(multi(step("deletePeer", peer="pa"), step("deletePeer", peer="pa"), step("getPeer", peer="pa")))
